@@ -564,10 +564,21 @@ func (g *gen) program(profile string, seed int64) *Program {
 // Generate builds the program for (profile, seed).
 func Generate(profile string, seed int64) *Program {
 	g := &gen{rng: rand.New(rand.NewSource(seed ^ 0x5DEECE66D)), k: profileKnobs(profile)}
+	if *flagTier == "thorough" && seed%2 != 0 {
+		// the thorough tier spends half of its runs on wider bounds: up to 5
+		// concurrent calls, up to 8-10 messages per direction, more large payloads
+		g.k.maxRPC += 2
+		g.k.maxMsgs += 4
+		g.k.pBig *= 2
+	}
 	if f, ok := specialGenerators[profile]; ok {
 		return f(g, seed)
 	}
-	return g.program(profile, seed)
+	p := g.program(profile, seed)
+	if *flagTier == "thorough" && seed%2 != 0 && p.Cfg.MaxSteps == 0 {
+		p.Cfg.MaxSteps = 15000
+	}
+	return p
 }
 
 var specialGenerators = map[string]func(g *gen, seed int64) *Program{}
